@@ -480,6 +480,13 @@ func genStoreCase(r *rand.Rand, id int) *Case {
 	if r.Intn(5) == 0 {
 		c.Stmts = append(c.Stmts, J{"k": "call", "name": "set_tx_meta", "args": jl(eStr("k"), eNum(1))})
 	}
+	if r.Intn(4) == 0 {
+		// writing metadata of an account whose metadata the store also holds (and that a meta() origin may have read)
+		if c.Meta["m"] == nil {
+			c.Meta["m"] = map[string]string{"other": "x"}
+		}
+		c.Stmts = append(c.Stmts, J{"k": "call", "name": "set_account_meta", "args": jl(eAcct("m"), eStr(pick(r, []string{"written", "other", "ka"})), eNum(7))})
+	}
 	if c.Decls == nil {
 		c.Decls = []any{}
 	}
